@@ -1064,7 +1064,7 @@ class Interp:
                                 s3.env[dk] = replace(recv, val=(tuple(sorted(sl2.items(), key=lambda kv: str(kv[0]))), recv.val[1]))
                                 out.append((s3, pos[1]))
                         continue
-                if not self.rule.wants_subscript and isinstance(f, (ast.Name, ast.Attribute)) and "*" not in kw and "**" not in kw:
+                if self.rule.namedtuple_as_tuple and not self.rule.wants_subscript and isinstance(f, (ast.Name, ast.Attribute)) and "*" not in kw and "**" not in kw:
                     # Cls(a, b, ..) of a typing.NamedTuple of the repository (no __new__ of its own): the tuple of its fields
                     qn = self.m.resolve_name(self.module, f) if not (isinstance(f, ast.Name) and self.var(f.id) in s2.env) else None
                     flds = self.m.namedtuple_fields(qn) if qn else None
@@ -1805,6 +1805,7 @@ class Interp:
 
 
 class BaseRule:
+    namedtuple_as_tuple = True  # Cls(a, b) of a repository NamedTuple evaluates to the tuple of its fields (a rule that models the class itself turns it off)
     wants_subscript = False  # rule.subscript(it, st, node, base, parts, is_slice) composes non-dict subscripts
     model_asserts = False  # True: `assert t` is `if not t: raise AssertionError` (default: asserts are skipped)
     wants_compose = False  # rule.compose(it, st, node, [(child_node, av)...]) composes List/BinOp/JoinedStr/... values
